@@ -8,6 +8,7 @@ use crate::stream::{ByteStream, DynByteStream, RemainingLength};
 use crate::utils::SyncBoxFuture;
 
 use std::fmt::{self, Debug};
+use std::ops::Not;
 use std::pin::Pin;
 use std::task::{Context, Poll};
 
@@ -132,12 +133,27 @@ impl AwsChunkedStream {
                     prev_signature: seed_signature,
                 };
 
+                // the number of verified payload bytes
+                let mut decoded_length: usize = 0;
+                // whether the signed zero-length chunk that terminates the upload has been verified
+                let mut is_terminated = false;
+
                 loop {
                     let meta = {
                         match Self::read_meta_bytes(body.as_mut(), prev_bytes, &mut buf).await {
-                            None => break,
+                            None => {
+                                // the transport stream ended: nothing may be left over
+                                if buf.is_empty().not() {
+                                    return Err(AwsChunkedStreamError::Incomplete);
+                                }
+                                break;
+                            }
                             Some(Err(e)) => return Err(AwsChunkedStreamError::Underlying(e)),
                             Some(Ok(remaining_bytes)) => prev_bytes = remaining_bytes,
+                        }
+                        if is_terminated {
+                            // nothing follows the final chunk
+                            return Err(AwsChunkedStreamError::FormatError);
                         }
                         if let Ok((_, meta)) = parse_chunk_meta(&buf) {
                             meta
@@ -162,9 +178,24 @@ impl AwsChunkedStream {
                         Some(signature) => ctx.prev_signature = signature,
                     }
 
+                    // the chunks may not carry more than the declared decoded length
+                    decoded_length = match decoded_length.checked_add(meta.size) {
+                        Some(n) if n <= decoded_content_length => n,
+                        _ => return Err(AwsChunkedStreamError::FormatError),
+                    };
+                    if meta.size == 0 {
+                        is_terminated = true;
+                    }
+
                     for bytes in data {
                         y.yield_ok(bytes).await;
                     }
+                }
+
+                // The upload is complete only if it was terminated by its signed zero-length chunk
+                // and carried exactly the declared decoded length.
+                if is_terminated.not() || decoded_length != decoded_content_length {
+                    return Err(AwsChunkedStreamError::Incomplete);
                 }
 
                 Ok(())
